@@ -6,6 +6,7 @@ import (
 	"context"
 	"encoding/hex"
 	"encoding/json"
+	"fmt"
 	"net"
 	"sync"
 	"time"
@@ -90,6 +91,8 @@ type stub struct {
 	// DeadlineMs: leave a write deadline this far in the future behind at the start and after every echo write
 	// (the echo writes themselves run without a deadline)
 	DeadlineMs int `toml:"write_deadline_ms"`
+	// BlobBytes: answer the first bytes read with one single Write of this many bytes (lab.Blob)
+	BlobBytes int `toml:"blob_bytes"`
 	// ReplyDelayMs: wait this long before every echo write (a service that answers late)
 	ReplyDelayMs int `toml:"reply_delay_ms"`
 	run          int
@@ -131,6 +134,7 @@ func (s *stub) Handle(ctx context.Context, conn net.Conn) error {
 	Stubs.mu.Unlock()
 	buf := make([]byte, 4096)
 	first := true
+	blobSent := false
 	if s.DeadlineMs > 0 {
 		conn.SetWriteDeadline(time.Now().Add(time.Duration(s.DeadlineMs) * time.Millisecond))
 	}
@@ -152,6 +156,10 @@ func (s *stub) Handle(ctx context.Context, conn net.Conn) error {
 		}
 		Stubs.cond.Broadcast()
 		Stubs.mu.Unlock()
+		if n > 0 && s.BlobBytes > 0 && !blobSent {
+			blobSent = true
+			conn.Write(Blob(s.BlobBytes))
+		}
 		if n > 0 && s.Echo {
 			if s.ReplyDelayMs > 0 {
 				time.Sleep(time.Duration(s.ReplyDelayMs) * time.Millisecond)
@@ -219,4 +227,13 @@ func (e *emitter) Handle(ctx context.Context, conn net.Conn) error {
 		conn.Write([]byte("ok\n"))
 	}
 	return nil
+}
+
+// Blob is the content a stub with blob_bytes=n writes in one call: every 16-byte block carries its own offset.
+func Blob(n int) []byte {
+	b := make([]byte, 0, n+16)
+	for off := 0; len(b) < n; off += 16 {
+		b = append(b, []byte(fmt.Sprintf("[%014d]", off))...)
+	}
+	return b[:n]
 }
